@@ -20,6 +20,7 @@
 #include <pthread.h>
 #include "common/rdm/DescriptorConsistencyChecker.h"
 #include <dirent.h>
+#include <sys/resource.h>
 #include <sys/stat.h>
 #include "common/rdm/GroupSizeCalculator.h"
 #include "common/rdm/PidStoreLoader.h"
@@ -610,6 +611,137 @@ static string look_op(const string &ops) {
   return out;
 }
 
+// number of open file descriptors of this process
+static int open_fds() {
+  int n = 0;
+  DIR *dp = opendir("/proc/self/fd");
+  if (!dp) return -1;
+  while (readdir(dp)) n++;
+  closedir(dp);
+  return n - 3;      // ".", "..", and the descriptor of this very opendir
+}
+
+// "many N": N rounds of every loader entry point in one process, under a lowered RLIMIT_NOFILE; every
+// load must succeed with the same table and the number of open descriptors must stay what it was
+static string many_op(unsigned rounds) {
+  vector<string> files = shipped_files();
+  int base_fds = open_fds();
+  struct rlimit old_lim, lim;
+  if (getrlimit(RLIMIT_NOFILE, &old_lim) != 0 || base_fds < 0) return "many=setup-failed";
+  lim = old_lim;
+  lim.rlim_cur = base_fds + 24;      // room for what one load needs at a time, not for a leak
+  if (lim.rlim_cur > old_lim.rlim_max) lim.rlim_cur = old_lim.rlim_max;
+  setrlimit(RLIMIT_NOFILE, &lim);
+  string first, verdict = "ok";
+  for (unsigned i = 0; i < rounds && verdict == "ok"; i++) {
+    for (int kind = 0; kind < 5 && verdict == "ok"; kind++) {
+      std::auto_ptr<const RootPidStore> st;
+      ola::rdm::PidStoreHelper *helper = NULL;
+      const RootPidStore *root = NULL;
+      if (kind == 0) { st.reset(RootPidStore::LoadFromDirectory(PID_DATA_DIR, true)); root = st.get(); }
+      if (kind == 1) { st.reset(RootPidStore::LoadFromDirectory(string(PID_DATA_DIR) + "/", false)); root = st.get(); }
+      if (kind == 2) { ola::rdm::PidStoreLoader l; st.reset(l.LoadFromDirectory(PID_DATA_DIR, true)); root = st.get(); }
+      if (kind == 3) {
+        helper = new ola::rdm::PidStoreHelper(PID_DATA_DIR);
+        root = helper->Init() ? helper->m_root_store : NULL;
+      }
+      if (kind == 4) {
+        // every file alone, through LoadFromFile; only success and the descriptor count matter here
+        for (size_t f = 0; f < files.size(); f++) {
+          std::auto_ptr<const RootPidStore> one(RootPidStore::LoadFromFile(string(PID_DATA_DIR) + "/" + files[f], true));
+          if (!one.get()) verdict = "FAILED:round" + vh::str(i) + ":file:" + files[f];
+        }
+      } else if (!root) {
+        verdict = "FAILED:round" + vh::str(i) + ":entry" + vh::str(kind);
+      } else {
+        unsigned nd = 0, np = 0;
+        string dg = store_digest(root, &nd, &np);
+        if (first.empty()) first = dg;
+        if (dg != first) verdict = "DIFFERENT-TABLE:round" + vh::str(i) + ":entry" + vh::str(kind);
+      }
+      delete helper;
+      st.reset();
+      int now = open_fds();
+      if (verdict == "ok" && now != base_fds)
+        verdict = "FD-LEAK:round" + vh::str(i) + ":entry" + vh::str(kind) + ":" + vh::str(base_fds) + "->" + vh::str(now);
+    }
+  }
+  setrlimit(RLIMIT_NOFILE, &old_lim);
+  return "many=" + verdict;
+}
+
+// "race T R": R rounds; each loads a FRESH store without validation (nothing has touched the lazily
+// computed sizes of its group descriptors), then T threads, each with its own deserializer and
+// serializer, make the first use of every group-bearing descriptor at the same moment (barrier per
+// item).  Answers must equal those obtained single-threaded from the long-lived validated store; after
+// the threads the cold store is swept once more single-threaded (a corrupted cache would persist).
+struct RaceItem { unsigned man, pid, kind; const Descriptor *cold; vector<uint8_t> bytes; string expect; };
+struct RaceArg { vector<RaceItem> *items; pthread_barrier_t *barrier; unsigned long mismatches; };
+static string decode_describe(ola::rdm::MessageDeserializer *des, const Descriptor *d, const vector<uint8_t> &b) {
+  std::auto_ptr<const Message> m(des->InflateMessage(d, b.empty() ? reinterpret_cast<const uint8_t*>("") : &b[0], b.size()));
+  return describe(m.get());
+}
+static void *race_worker(void *p) {
+  RaceArg *a = static_cast<RaceArg*>(p);
+  ola::rdm::MessageDeserializer des;
+  for (size_t i = 0; i < a->items->size(); i++) {
+    const RaceItem &it = (*a->items)[i];
+    pthread_barrier_wait(a->barrier);
+    if (decode_describe(&des, it.cold, it.bytes) != it.expect) a->mismatches++;
+  }
+  return NULL;
+}
+static string race_op(unsigned threads, unsigned rounds) {
+  if (threads < 2 || threads > 8) return "race=bad-args";
+  // work list from the warm, validated store: every descriptor that contains a group, two payloads each
+  vector<DescRef> ds;
+  all_descs(&ds);
+  vector<RaceItem> items;
+  for (size_t i = 0; i < ds.size(); i++) {
+    if (c14::desc_str(ds[i].d).find('g') == string::npos) continue;
+    unsigned accepted = 0;
+    for (unsigned len = 0; len < 120 && accepted < 2; len++) {
+      RaceItem it;
+      it.man = ds[i].man; it.pid = ds[i].pid; it.kind = ds[i].kind; it.cold = NULL;
+      for (unsigned b = 0; b < len; b++) it.bytes.push_back(static_cast<uint8_t>(1 + (b * 11 + len) % 250));
+      ola::rdm::MessageDeserializer des;
+      it.expect = decode_describe(&des, ds[i].d, it.bytes);
+      if (it.expect != "null" && len > 0) { accepted++; items.push_back(it); }
+    }
+  }
+  unsigned long racing = 0, after = 0;
+  for (unsigned r = 0; r < rounds; r++) {
+    std::auto_ptr<const RootPidStore> cold(RootPidStore::LoadFromDirectory(PID_DATA_DIR, false));
+    if (!cold.get()) return "race=load-failed";
+    for (size_t i = 0; i < items.size(); i++) {
+      const PidStore *st = items[i].man == 0 ? cold->m_esta_store.get() : NULL;
+      if (items[i].man != 0) {
+        RootPidStore::ManufacturerMap::const_iterator it = cold->m_manufacturer_store.find(items[i].man);
+        st = it == cold->m_manufacturer_store.end() ? NULL : it->second;
+      }
+      const PidDescriptor *pd = st ? st->LookupPID(static_cast<uint16_t>(items[i].pid)) : NULL;
+      if (!pd) return "race=missing-descriptor";
+      items[i].cold = items[i].kind == 0 ? pd->GetRequest() : items[i].kind == 1 ? pd->GetResponse() :
+                      items[i].kind == 2 ? pd->SetRequest() : pd->SetResponse();
+      if (!items[i].cold) return "race=missing-descriptor";
+    }
+    pthread_barrier_t barrier;
+    pthread_barrier_init(&barrier, NULL, threads);
+    vector<RaceArg> args(threads);
+    vector<pthread_t> tids(threads);
+    for (unsigned t = 0; t < threads; t++) {
+      args[t].items = &items; args[t].barrier = &barrier; args[t].mismatches = 0;
+      if (pthread_create(&tids[t], NULL, race_worker, &args[t]) != 0) return "race=thread-create-failed";
+    }
+    for (unsigned t = 0; t < threads; t++) { pthread_join(tids[t], NULL); racing += args[t].mismatches; }
+    pthread_barrier_destroy(&barrier);
+    ola::rdm::MessageDeserializer des;
+    for (size_t i = 0; i < items.size(); i++)
+      if (decode_describe(&des, items[i].cold, items[i].bytes) != items[i].expect) after++;
+  }
+  return "race=" + vh::str(racing) + ";post=" + vh::str(after);
+}
+
 static string handle(const string &p) {
   if (!g_store) return "load=failed;r=store-load-failed";
   vector<string> a = vh::split(p);
@@ -631,6 +763,8 @@ static string handle(const string &p) {
   if (a[0] == "reload" && a.size() == 2) return reload_op(vh::num(a[1]));
   if (a[0] == "look" && a.size() == 2) return look_op(a[1]);
   if (a[0] == "load" && a.size() == 2) return load_op(vh::num(a[1]));
+  if (a[0] == "many" && a.size() == 2) return many_op(vh::num(a[1]));
+  if (a[0] == "race" && a.size() == 3) return race_op(vh::num(a[1]), vh::num(a[2]));
   if (a[0] == "ldo" && a.size() == 4) return ldo_op(a[1] == "1", a[2], a[3]);
   if (a[0] == "ldf" && a.size() >= 4) return ldf_op(a[1] == "1", a[2], a[3]);
   if (a[0] == "conc" && a.size() == 3) return conc_op(vh::num(a[1]), vh::num(a[2]));
